@@ -92,6 +92,8 @@ def cfg_line(r, ndev=None, mode=None, cold=None, hb=None, extra=''):
         s += ' fp1=65300,120000'
     if r.random() < 0.3:
         s += ' tx0=129029,127489 rx0=127250,129026'
+    if r.random() < 0.15:
+        s += ' early=1'          # Open() before the configuration calls (effective for opened starts only)
     return s + extra, ndev, src0, mode
 
 
